@@ -21,10 +21,16 @@ ANIM = "src/food_system/animal_populations.py"
 
 
 def run(index, rep):
+    rep.guard(state6, index, rep)
     rep.guard(ledger, index, rep)
     rep.guard(record, index, rep)
     rep.guard(xfer, index, rep)
     rep.guard(slaughter, index, rep)
+
+
+def state6(index, rep):
+    from .memo import hidden_state_rules
+    hidden_state_rules(index, rep, "C06.STATE", [ANIM], "a month's births, deaths, transfers and slaughter")
 
 
 def ledger(index, rep):
